@@ -30,7 +30,7 @@ type hop struct {
 }
 
 // runConcurrent executes per-goroutine operation lists on a shared object and records the history.
-func runConcurrent(progs [][]interface{}, apply func(in interface{}) interface{}, gomax int) []hop {
+func runConcurrent(progs [][]interface{}, apply func(in interface{}) interface{}, gomax int) ([]hop, string) {
 	old := runtime.GOMAXPROCS(gomax)
 	defer runtime.GOMAXPROCS(old)
 	var clk int64
@@ -39,37 +39,52 @@ func runConcurrent(progs [][]interface{}, apply func(in interface{}) interface{}
 	var ready, start int32
 	for g := range progs {
 		wg.Add(1)
-		go func(g int) {
-			defer wg.Done()
-			// spin barrier: all goroutines leave together, on different Ps where possible
-			atomic.AddInt32(&ready, 1)
-			for atomic.LoadInt32(&start) == 0 {
-				if gomax == 1 {
-					runtime.Gosched()
-				}
-			}
-			for i, in := range progs[g] {
-				c := atomic.AddInt64(&clk, 1)
-				out := apply(in)
-				r := atomic.AddInt64(&clk, 1)
-				res[g] = append(res[g], hop{client: g, in: in, out: out, call: c, ret: r})
-				if (g+i)%3 == 0 {
-					runtime.Gosched()
-				}
-			}
-		}(g)
+		go histWorker(&wg, g, progs[g], apply, &clk, &ready, &start, gomax, &res[g])
 	}
 	for atomic.LoadInt32(&ready) < int32(len(progs)) {
 		runtime.Gosched()
 	}
 	atomic.StoreInt32(&start, 1)
-	wg.Wait()
+	if verdict, st := waitOrDeadlock(&wg, &clk, "main.histWorker"); verdict != "done" {
+		return nil, verdict + "\n" + st
+	}
 	var all []hop
 	for _, r := range res {
 		all = append(all, r...)
 	}
 	sort.Slice(all, func(i, j int) bool { return all[i].call < all[j].call })
-	return all
+	return all, ""
+}
+
+// stuckHistory turns a history that never finished into a verdict.
+func stuckHistory(c *vlib.Ctx, typeName, label, why string, progs [][]interface{}) {
+	if strings.HasPrefix(why, "deadlock") {
+		c.Fail(typeName+":deadlock-under-concurrency", "every goroutine of a short concurrent history is parked on the structure's own mutex: the history can never finish",
+			map[string]interface{}{"type": typeName, "programs": fmt.Sprint(progs), "goroutine": why})
+		return
+	}
+	c.Inconclusive(label, "history made no progress for 5 minutes but is not parked on a mutex")
+}
+
+//go:noinline
+func histWorker(wg *sync.WaitGroup, g int, prog []interface{}, apply func(in interface{}) interface{}, clk *int64, ready, start *int32, gomax int, out *[]hop) {
+	defer wg.Done()
+	// spin barrier: all goroutines leave together, on different Ps where possible
+	atomic.AddInt32(ready, 1)
+	for atomic.LoadInt32(start) == 0 {
+		if gomax == 1 {
+			runtime.Gosched()
+		}
+	}
+	for i, in := range prog {
+		c := atomic.AddInt64(clk, 1)
+		o := apply(in)
+		r := atomic.AddInt64(clk, 1)
+		*out = append(*out, hop{client: g, in: in, out: o, call: c, ret: r})
+		if (g+i)%3 == 0 {
+			runtime.Gosched()
+		}
+	}
 }
 
 func maxOverlap(h []hop) (int, int) {
@@ -219,7 +234,11 @@ func linLmap(c *vlib.Ctx, t *lmap.TypeDesc, r *vlib.Rand, label string, gomax in
 			progs[g] = append(progs[g], mk(gr))
 		}
 	}
-	h := runConcurrent(progs, func(in interface{}) interface{} { return lmap.Apply(inst, in.(lmap.Op)) }, gomax)
+	h, why := runConcurrent(progs, func(in interface{}) interface{} { return lmap.Apply(inst, in.(lmap.Op)) }, gomax)
+	if why != "" {
+		stuckHistory(c, t.Name, label, why, progs)
+		return
+	}
 	init := model.Clone()
 	pm := porcupine.Model{
 		Init: func() interface{} { return init.Clone() },
@@ -284,7 +303,11 @@ func linPmap(c *vlib.Ctx, d *pmap.Descriptor, r *vlib.Rand, label string, gomax 
 			progs[g] = append(progs[g], mk(gr))
 		}
 	}
-	h := runConcurrent(progs, func(in interface{}) interface{} { return pmap.Apply(inst, in.(pmap.Op)) }, gomax)
+	h, why := runConcurrent(progs, func(in interface{}) interface{} { return pmap.Apply(inst, in.(pmap.Op)) }, gomax)
+	if why != "" {
+		stuckHistory(c, d.Name, label, why, progs)
+		return
+	}
 	init := model.Clone()
 	pm := porcupine.Model{
 		Init: func() interface{} { return init.Clone() },
@@ -397,7 +420,11 @@ func linLinkedList(c *vlib.Ctx, r *vlib.Rand, label string, gomax int) {
 			progs[g] = append(progs[g], mk(gr))
 		}
 	}
-	h := runConcurrent(progs, apply, gomax)
+	h, why := runConcurrent(progs, apply, gomax)
+	if why != "" {
+		stuckHistory(c, "LinkedList", label, why, progs)
+		return
+	}
 	pm := porcupine.Model{
 		Init: func() interface{} { return []int64(nil) },
 		Step: func(st, in, out interface{}) (bool, interface{}) {
